@@ -99,7 +99,7 @@ CLAIMED = {
     ),
     "C14": (
         "property-based testing of pick sequences with a strict window oracle (explicit subset) and a bounded-deviation oracle (no subset), sequential and concurrent (rapid) + rapid-drawn schedules of concurrent pickers on a deterministic scheduler",
-        "Generated-input search: k in 1..12 endpoints with scripted healthy/unhealthy/disabled states, explicit subsets in any order: every window of N consecutive picks (MatchAttributes+Pop per pick) gives each ready endpoint floor/ceil(N/r), totals with 2-8 concurrent pickers stay balanced, only ready subset members are picked; without subset 4e5 picks from 4 goroutines deviate from N/r by <= 64; pick-schedules: 2-3 logical pickers on clusterinfo.go rewritten with schedule points, 0-5 rapid-drawn pre-emptions, totals floor/ceil whatever the interleaving. Exploration; outside pick-schedules the interleavings of the cursor update are those the Go scheduler happens to produce.",
+        "Generated-input search: k in 1..12 endpoints with scripted healthy/unhealthy/disabled states, explicit subsets in any order: every window of N consecutive picks (MatchAttributes+Pop per pick) gives each ready endpoint floor/ceil(N/r), totals with 2-8 concurrent pickers stay balanced, only ready subset members are picked; without subset 4e5 picks from 4 goroutines deviate from N/r by <= 64; pick-schedules: 2-3 logical pickers on clusterinfo.go rewritten with schedule points, 0-5 rapid-drawn pre-emptions, totals floor/ceil whatever the interleaving; picks-racing-rotation-resets: a stress plan in a child process (pickers + flapping readiness + alternating server lists) that must neither crash nor wedge. Exploration; outside pick-schedules the interleavings of the cursor update are those the Go scheduler happens to produce.",
         "Trusted: rapid, Go scheduler for the concurrent part, the constant 64 for the no-subset case (see DESIGN.md).",
         "DESIGN.md 4/C14",
     ),
